@@ -12,7 +12,9 @@ accept the signature expression?  is there a MOV for this size/class pair?) the
 `Op` carries the classification chosen by the harness; everything else
 (unknown parameter, index out of range, navigation on the wrong type, datum
 overlap, invalid build-tag term, labels, memory operands, register pressure,
-missing active function / global) is decided here from the request data.
+missing active function / global) is decided here from the request data; the
+one fact about the world outside avo that this needs — which characters the Go
+toolchain allows in a build tag — is the parameter `tc`.
 -/
 namespace Avo.Ctx
 
@@ -37,6 +39,7 @@ inductive ErrClass where
   | noField       -- "struct does not have field 'x'"
   | movDeduce     -- "could not deduce mov instruction"
   | overlap       -- "overlaps existing datum"
+  | negOffset     -- "negative offset"
   | constraint    -- any error of buildtags validation
   | noPackage     -- "no package specified" (`Implement` without `Package`)
   deriving DecidableEq, Repr, Inhabited
@@ -46,7 +49,7 @@ def ErrClass.tag : ErrClass → String
   | .unknownVar => "unkvar" | .indexRange => "idxrange" | .notPrimitive => "notprim"
   | .notPointer => "notptr" | .noBase => "nobase" | .noLen => "nolen" | .noCap => "nocap"
   | .noReal => "noreal" | .noImag => "noimag" | .notArray => "notarray" | .arrayBounds => "arrbounds"
-  | .notStruct => "notstruct" | .noField => "nofield" | .movDeduce => "mov" | .overlap => "overlap"
+  | .notStruct => "notstruct" | .noField => "nofield" | .movDeduce => "mov" | .overlap => "overlap" | .negOffset => "negoff"
   | .constraint => "constraint" | .noPackage => "nopkg"
 
 /-! ## Go types as far as component navigation looks at them -/
@@ -257,25 +260,74 @@ def Glob.overlapsAny (g : Glob) (off sz : Nat) : Bool :=
 def Glob.add (g : Glob) (off sz : Nat) : Glob :=
   { g with size := if g.size < off + sz then off + sz else g.size, data := g.data ++ [(off, sz)] }
 
-/-! ## Build constraints (validation only; ASCII terms) -/
+/-! ## Build constraints (validation)
 
-def tagChar (c : Char) : Bool :=
-  c.isAlpha || c.isDigit || c == '_' || c == '.'
+Which characters may occur in a tag is a fact about the Go toolchain
+(`go/build/constraint`: letters and decimal digits of every script, `_`, `.`),
+not something avo is free to choose: it is the parameter `tc` of everything
+below.  The property theorems hold for every `tc`; the driver and
+`Props/C18Tables.lean` instantiate it with the table measured from the installed
+toolchain on every run (`Oracle/TagChars.lean`, one `constraint.Parse` per code point). -/
 
-/-- `Term.Validate`: not prefixed `!!`, non-empty name, letters/digits/`_`/`.` only. -/
-def termValid (t : List Char) : Bool :=
+/-- Tag character predicate from a table of inclusive code point ranges. -/
+def tagCharOf (ranges : List (Nat × Nat)) (c : Char) : Bool :=
+  ranges.any (fun r => r.1 ≤ c.toNat && c.toNat ≤ r.2)
+
+/-- The ASCII part of the toolchain's table (`.`, digits, letters, `_`), for examples. -/
+def asciiTagRanges : List (Nat × Nat) := [(46, 46), (48, 57), (65, 90), (95, 95), (97, 122)]
+def asciiTag : Char → Bool := tagCharOf asciiTagRanges
+
+/-- The tag name of a term: the term without one leading `!` (`Term.Name`). -/
+def termName : List Char → List Char
+  | '!' :: r => r
+  | t => t
+
+/-- A term is a tag or `!tag`: not prefixed `!!`, non-empty name, tag characters only. -/
+def termValid (tc : Char → Bool) (t : List Char) : Bool :=
   match t with
   | '!' :: '!' :: _ => false
-  | '!' :: name => !name.isEmpty && name.all tagChar
-  | name => !name.isEmpty && name.all tagChar
+  | _ => !(termName t).isEmpty && (termName t).all tc
 
 abbrev Option' := List (List Char)      -- AND of terms
 abbrev Constraint := List Option'       -- OR of options
 
-/-- `Constraint.Validate`: at least one option, every option has at least one term, every term valid. -/
-def constraintValid (c : Constraint) : Bool :=
-  !c.isEmpty && c.all (fun o => !o.isEmpty && o.all termValid)
-def constraintsValid (cs : List Constraint) : Bool := cs.all constraintValid
+/-- An option has at least one term and every term is valid. -/
+def optionValid (tc : Char → Bool) (o : Option') : Bool := !o.isEmpty && o.all (termValid tc)
+
+/-- A constraint line has at least one option and every option is valid. -/
+def constraintValid (tc : Char → Bool) (c : Constraint) : Bool :=
+  !c.isEmpty && c.all (optionValid tc)
+def constraintsValid (tc : Char → Bool) (cs : List Constraint) : Bool := cs.all (constraintValid tc)
+
+/-! ### The text form (`ConstraintExpr`): white-space separated options, comma separated terms -/
+
+/-- Code points `strings.Fields` splits on (`unicode.IsSpace`); compared with the
+set measured from the installed `strings.Fields` in `Props/C18Tables.lean`. -/
+def spaceCodes : List Nat :=
+  [0x09, 0x0A, 0x0B, 0x0C, 0x0D, 0x20, 0x85, 0xA0, 0x1680,
+   0x2000, 0x2001, 0x2002, 0x2003, 0x2004, 0x2005, 0x2006, 0x2007, 0x2008, 0x2009, 0x200A,
+   0x2028, 0x2029, 0x202F, 0x205F, 0x3000]
+
+def isSpace (c : Char) : Bool := spaceCodes.contains c.toNat
+
+/-- Split at every `sep` (`strings.Split`): `cur` is the piece being read, reversed. -/
+def splitGo (sep : Char) : List Char → List Char → List (List Char)
+  | cur, [] => [cur.reverse]
+  | cur, c :: cs => if c == sep then cur.reverse :: splitGo sep [] cs else splitGo sep (c :: cur) cs
+
+def splitOn (sep : Char) (s : List Char) : List (List Char) := splitGo sep [] s
+
+/-- Maximal runs of non-space characters (`strings.Fields`). -/
+def fieldsGo : List Char → List Char → List (List Char)
+  | cur, [] => if cur.isEmpty then [] else [cur.reverse]
+  | cur, c :: cs =>
+    if isSpace c then (if cur.isEmpty then fieldsGo [] cs else cur.reverse :: fieldsGo [] cs)
+    else fieldsGo (c :: cur) cs
+
+def fields (s : List Char) : List (List Char) := fieldsGo [] s
+
+/-- The constraint a `// +build` text denotes. -/
+def parseConstraint (text : List Char) : Constraint := (fields text).map (splitOn ',')
 
 /-! ## The builder state -/
 
@@ -370,10 +422,13 @@ inductive Op where
   | staticGlobal (name : String)
   | dataAttributes (a : Nat)
   | addDatum (off size : Nat)
+  /-- `AddDatum(-(below+1), v)`: a datum placed before the start of the section -/
+  | addDatumNeg (below size : Nat)
   | appendDatum (size : Nat)
   | constraints (cs : List Constraint)
   | constraint (k : Constraint)
-  | constraintExpr (k : Constraint)
+  /-- `ConstraintExpr(text)`: the text that follows `// +build` -/
+  | constraintExpr (text : List Char)
   /-- `Function(name)` followed by a register-pressure block (all valid calls) -/
   | pressure (name : String) (kind n : Nat)
   /-- `Implement(name)` on a context without a package (`Package` is never called) -/
@@ -383,7 +438,7 @@ inductive Op where
   leaves the state alone and the statement (`Spec`) allows it to be reported or not. -/
   | nilArg (k : Nat)
 
-def step (c : Ctx) : Op → Ctx
+def step (tc : Char → Bool) (c : Ctx) : Op → Ctx
   | .function name => c.newFn name
   | .attributes a => c.withFn (fun f => { f with attrs := a })
   | .doc nl => c.withFn (fun f => { f with docs := f.docs + 1, docBreak := nl })
@@ -413,20 +468,26 @@ def step (c : Ctx) : Op → Ctx
       match c.glob with
       | none => c.addErr .noGlobal      -- the datum lands in an empty throw-away section: no overlap
       | some g => if g.overlapsAny off sz then c.addErr .overlap else { c with glob := some (g.add off sz) }
+  | .addDatumNeg _ _ =>
+      -- refused before anything is looked at; the section is left alone.  (Without an active
+      -- section the real call records two messages — one per thing wrong with it — which this
+      -- one-message-per-request machine does not express: such calls are not issued.)
+      c.addErr (if c.glob.isNone then .noGlobal else .negOffset)
   | .appendDatum sz => c.withGlob (fun g => g.add g.size sz)
-  | .constraints cs => if constraintsValid cs then { c with cons := cs } else c.addErr .constraint
+  | .constraints cs => if constraintsValid tc cs then { c with cons := cs } else c.addErr .constraint
   | .constraint k =>
-      if constraintsValid (c.cons ++ [k]) then { c with cons := c.cons ++ [k] } else c.addErr .constraint
-  | .constraintExpr k =>
+      if constraintsValid tc (c.cons ++ [k]) then { c with cons := c.cons ++ [k] } else c.addErr .constraint
+  | .constraintExpr text =>
       -- ParseConstraint validates every option; then Constraint(k)
-      if constraintValid k then
-        (if constraintsValid (c.cons ++ [k]) then { c with cons := c.cons ++ [k] } else c.addErr .constraint)
+      if constraintValid tc (parseConstraint text) then
+        (if constraintsValid tc (c.cons ++ [parseConstraint text]) then
+          { c with cons := c.cons ++ [parseConstraint text] } else c.addErr .constraint)
       else c.addErr .constraint
   | .pressure name kind n => (c.newFn name).addNode (.press kind n)
   | .implement _ => c.addErr .noPackage
   | .nilArg _ => c
 
-def run (c : Ctx) (ops : List Op) : Ctx := ops.foldl step c
+def run (tc : Char → Bool) (c : Ctx) (ops : List Op) : Ctx := ops.foldl (step tc) c
 
 /-- `Context.Result()`'s error part. -/
 inductive Result where
